@@ -1008,9 +1008,16 @@ class InterpProxy(object):
             raise PathAbort("interp1d stub: only linear interpolation is modelled", kind='engine-gap')
         _used('interp1d(linear) (piecewise-linear model incl. extrapolate / fill values, sorted by forking)')
         xs, ys = list(np.asarray(x, dtype=object)), list(np.asarray(y, dtype=object))
-        order = sorted_by_fork_idx(xs)
-        xs = [xs[i] for i in order]
-        ys = [ys[i] for i in order]
+        presorted = bool(kw.pop('assume_sorted', False))
+        if kw.get('axis', -1) not in (-1, 0) or kw.get('copy', True) is not True:
+            raise PathAbort("interp1d stub: axis/copy arguments unsupported", kind='engine-gap')
+        if presorted:
+            # scipy takes the abscissae as given: bracket by binary search (side='left') and clip - meaningless if they are not ascending
+            _used('interp1d(assume_sorted=True): abscissae used as given (binary-search bracketing)')
+        else:
+            order = sorted_by_fork_idx(xs)
+            xs = [xs[i] for i in order]
+            ys = [ys[i] for i in order]
         if len(xs) < 2:
             # scipy accepts a single point for the linear kind and evaluates 0/0 -> nan everywhere
             real_interp.interp1d(np.zeros(len(xs)), np.zeros(len(xs)), kind=kind, bounds_error=bounds_error, fill_value=fill_value)
@@ -1040,9 +1047,19 @@ class InterpProxy(object):
                             raise ValueError("A value in x_new is above the interpolation range.")
                         out.flat[i] = above
                         continue
-                k = 0
-                while k < len(xs) - 2 and bool(ltv >= xs[k + 1]):
-                    k += 1
+                if presorted:
+                    lo_, hi_ = 0, len(xs)
+                    while lo_ < hi_:
+                        mid = lo_ + ((hi_ - lo_) >> 1)
+                        if bool(lift(xs[mid]) < ltv):
+                            lo_ = mid + 1
+                        else:
+                            hi_ = mid
+                    k = min(max(lo_, 1), len(xs) - 1) - 1
+                else:
+                    k = 0
+                    while k < len(xs) - 2 and bool(ltv >= xs[k + 1]):
+                        k += 1
                 slope = (ys[k + 1] - ys[k]) / (xs[k + 1] - xs[k])
                 out.flat[i] = ys[k] + slope * (ltv - xs[k])
             return out.view(SymArray)
